@@ -264,52 +264,108 @@ theorem evalBodyForms_def_inv {ρ : Env} {x : Text} {e e' : Datum} {es : List Da
       cases h5
 
 /-- the names `F3B` lists are the leading definitions of the body, and the body is not empty -/
-theorem F3B_body_aux {G : Text → Prop} : ∀ (body : List Datum) (f : Nat) (c : Marwood.Vm.Ctx) (ns us : Text → Prop)
-    (ints : List Text) (bodyD : Datum), F3B G f c ns us ints bodyD → properList bodyD = some body →
-    leadingDefs body = ints ∧ body ≠ [] := by
-  intro body
-  induction body with
-  | nil =>
-    intro f c ns us ints bodyD h hp
-    cases h <;> simp [properList] at hp
-  | cons b bs ih =>
-    intro f c ns us ints bodyD h hp
+theorem isDefine_curForm (x : Text) (f b : Datum) : isDefine (curForm x f b) = true := by
+  simp [isDefine, curForm]
+
+theorem definedName_curForm (x : Text) (f b : Datum) : definedName (curForm x f b) = some x := by
+  simp [definedName, curForm]
+
+/-- a leading `(define (x . formals) body …)` with `x` lexically bound: the closure, the variable's cell, go on -/
+theorem evalBodyForms_cur_inv {ρ : Env} {x : Text} {formals lbody e' : Datum} {es : List Datum} {σ σ' : SSt} {w : Val}
+    {l : Nat} (hl : ρ.lookup x = some l)
+    (h : evalBodyForms r ρ true (curForm x formals lbody :: e' :: es) σ = .ok w σ') :
+    ∃ ps rst b bs, Spec.Eval.parseFormals formals = some (ps, rst) ∧ properList lbody = some (b :: bs) ∧
+      l < σ.store.size ∧
+      evalBodyForms r ρ true (e' :: es)
+        { σ with store := σ.store.setIfInBounds l (.var (.closure ps rst (b :: bs) ρ)) } = .ok w σ' := by
+  simp only [evalBodyForms, isDefine_curForm, Bool.and_self, if_true] at h
+  obtain ⟨⟨x', v⟩, σ1, h1, h2⟩ := bind_ok_inv h
+  simp only [defineValue, curForm] at h1
+  split at h1
+  · exact absurd h1 throw_ne_ok
+  · obtain ⟨v0, σ0, h3, h4⟩ := bind_ok_inv h1
+    obtain ⟨hxv, rfl⟩ := pure_ok_inv h4
+    injection hxv with hx hv
+    subst hx hv
+    cases hpf : Spec.Eval.parseFormals formals with
+    | none => simp only [Spec.Eval.makeClosure, hpf] at h3; exact absurd h3 throw_ne_ok
+    | some pr =>
+    obtain ⟨ps, rst⟩ := pr
+    cases hpb : properList lbody with
+    | none => simp only [Spec.Eval.makeClosure, hpf, hpb] at h3; exact absurd h3 throw_ne_ok
+    | some bl =>
+    cases bl with
+    | nil => simp only [Spec.Eval.makeClosure, hpf, hpb] at h3; exact absurd h3 throw_ne_ok
+    | cons b bs =>
+      simp only [Spec.Eval.makeClosure, hpf, hpb] at h3
+      obtain ⟨rfl, rfl⟩ := pure_ok_inv h3
+      change (assignVar ρ x' _ >>= fun _ => evalBodyForms r ρ true (e' :: es)) σ1 = _ at h2
+      obtain ⟨u, σ2, h5, h6⟩ := bind_ok_inv h2
+      simp only [assignVar, hl] at h5
+      unfold writeCell at h5
+      by_cases hlt : l < σ1.store.size
+      · simp only [hlt, if_true] at h5
+        injection h5 with _ h7
+        subst h7
+        exact ⟨ps, rst, b, bs, rfl, rfl, hlt, h6⟩
+      · simp only [hlt, if_false] at h5
+        cases h5
+
+theorem F3B_body_def {d y rest : Datum} {x : Text} {ints' : List Text} {body : List Datum}
+    (hd1 : isDefine d = true) (hd2 : definedName d = some x)
+    (hp : properList (.pair d (.pair y rest)) = some body)
+    (ih : ∀ q, properList (.pair y rest) = some q → leadingDefs q = ints' ∧ q ≠ []) :
+    leadingDefs body = x :: ints' ∧ body ≠ [] := by
+  have hp2 : properList (.pair d (.pair y rest)) =
+      (properList (.pair y rest)).map (d :: ·) := by rw [properList]
+  rw [hp2] at hp
+  cases hq : properList (.pair y rest) with
+  | none => rw [hq] at hp; cases hp
+  | some q =>
+    rw [hq] at hp
+    simp only [Option.map] at hp
+    injection hp with hp
+    subst hp
     refine ⟨?_, by simp⟩
-    cases h with
-    | last x hx _ =>
-      simp [properList] at hp
-      obtain ⟨rfl, rfl⟩ := hp
+    simp only [leadingDefs, hd1, hd2, if_true]
+    rw [(ih _ hq).1]
+
+mutual
+theorem F3B_body_aux {G : Text → Prop} : ∀ {f : Nat} {c : Marwood.Vm.Ctx} {ns us : Text → Prop}
+    {ints : List Text} {bodyD : Datum}, F3B G f c ns us ints bodyD → ∀ body, properList bodyD = some body →
+    leadingDefs body = ints ∧ body ≠ []
+  | _, _, _, _, _, _, .last x hx _, body, hp => by
+    simp [properList] at hp
+    subst hp
+    simp [leadingDefs, hx]
+  | _, _, _, _, _, _, .cons x y rest hx _ _, body, hp => by
+    simp only [properList] at hp
+    cases hq : properList rest with
+    | none => simp [hq] at hp
+    | some q =>
+      simp [hq] at hp
+      subst hp
       simp [leadingDefs, hx]
-    | cons x y rest hx _ _ =>
-      simp only [properList] at hp
-      cases hq : properList rest with
-      | none => simp [hq] at hp
-      | some q =>
-        simp [hq] at hp
-        obtain ⟨rfl, _⟩ := hp
-        simp [leadingDefs, hx]
-    | defv x e y rest ints' _ _ _ _ hB =>
-      have hp2 : properList (.pair (defForm x e) (.pair y rest)) =
-          (properList (.pair y rest)).map (defForm x e :: ·) := by rw [properList]
-      rw [hp2] at hp
-      cases hq : properList (.pair y rest) with
-      | none => rw [hq] at hp; cases hp
-      | some q =>
-        rw [hq] at hp
-        simp only [Option.map] at hp
-        injection hp with hp
-        injection hp with hb hbs
-        subst hb hbs
-        simp only [leadingDefs, isDefine_defForm, definedName_defForm, if_true]
-        rw [(ih _ _ _ _ _ _ hB hq).1]
+  | _, _, _, _, _, _, .defv x e y rest ints' _ _ _ _ hB, body, hp =>
+    F3B_body_def (isDefine_defForm _ _) (definedName_defForm _ _) hp (fun q hq => F3B_body_aux hB q hq)
+  | _, _, _, _, _, _, .block Bs ints bodyD _ hK, body, hp => F3K_body_aux hK body hp
+theorem F3K_body_aux {G : Text → Prop} : ∀ {f : Nat} {c : Marwood.Vm.Ctx} {ns us : Text → Prop} {Bs todo : List Text}
+    {ints : List Text} {bodyD : Datum}, F3K G f c ns us Bs todo ints bodyD → ∀ body, properList bodyD = some body →
+    leadingDefs body = ints ∧ body ≠ []
+  | _, _, _, _, _, _, _, _, .defl x formals lbody y rest ints' _ _ _ _ hK, body, hp =>
+    F3B_body_def (isDefine_defForm _ _) (definedName_defForm _ _) hp (fun q hq => F3K_body_aux hK q hq)
+  | _, _, _, _, _, _, _, _, .defc x formals lbody y rest ints' p ps rst lints caps _ _ _ _ _ _ _ _ _ _ _ hK, body, hp =>
+    F3B_body_def (isDefine_curForm _ _ _) (definedName_curForm _ _ _) hp (fun q hq => F3K_body_aux hK q hq)
+  | _, _, _, _, _, _, _, _, .done ints bodyD hB, body, hp => F3B_body_aux hB body hp
+end
 
 theorem leadingDefs_of_F3B {G : Text → Prop} : ∀ {f : Nat} {c : Marwood.Vm.Ctx} {ns us : Text → Prop} {ints : List Text} {bodyD : Datum}
     {body : List Datum}, F3B G f c ns us ints bodyD → properList bodyD = some body → leadingDefs body = ints :=
-  fun h hp => (F3B_body_aux _ _ _ _ _ _ _ h hp).1
+  fun h hp => (F3B_body_aux h _ hp).1
 
 theorem F3B_nonempty {G : Text → Prop} : ∀ {f : Nat} {c : Marwood.Vm.Ctx} {ns us : Text → Prop} {ints : List Text} {bodyD : Datum}
     {body : List Datum}, F3B G f c ns us ints bodyD → properList bodyD = some body → body ≠ [] :=
-  fun h hp => (F3B_body_aux _ _ _ _ _ _ _ h hp).2
+  fun h hp => (F3B_body_aux h _ hp).2
 
 /-- application of a closure (any formals): bind, then the body -/
 theorem applyStep_closure_inv3 {ps : List Text} {rest : Option Text} {body : List Datum} {ρc : Env} {args : List Val}
